@@ -1,6 +1,7 @@
 package main
 
 import (
+	"encoding/json"
 	"fmt"
 	"os"
 	"runtime"
@@ -56,6 +57,16 @@ func main() {
 	}
 	r := report.New(id, tier, c.Level)
 	r.GoTest = checks.GoTestFor(id)
+	if c.Replay != nil {
+		r.Confirm = func(cs interface{}) (bool, string) {
+			raw, err := json.Marshal(cs)
+			if err != nil {
+				return true, "case not serialisable"
+			}
+			obs, verr := c.Replay(raw)
+			return verr != nil, obs
+		}
+	}
 	c.Run(r)
 	if f := os.Getenv("VERIF_MEMPROF"); f != "" {
 		if fh, err := os.Create(f); err == nil {
